@@ -13,6 +13,8 @@ structure KindRow where
   family : DFamily
   pandasKind : FKind
   narwhalsKind : FKind
+  /-- `NarwhalsMaterializer._is_categorical` when the same column arrives as a `pyarrow.Table` column -/
+  arrowKind : FKind
 deriving DecidableEq, Repr, Inhabited
 
 end FormulaicVerif.Model
